@@ -69,8 +69,9 @@ pub fn import(
 pub fn export() -> Result<()> {
     let wallet_private_key = select_wallet_private_key()?;
 
+    // the key comes from a file on disk: whatever it holds must not crash the command
     let wallet_address = Wallet::new_from_private_key(DUMMY_NETWORK, &wallet_private_key)
-        .expect("Infallible")
+        .map_err(|_| crate::wallet::error::Error::InvalidPrivateKeyFile)?
         .address()
         .to_string();
 
